@@ -384,6 +384,8 @@ def compare(case, ir, mr):
     if info:
         if not info.get('commit_ok', True):
             out.append('chp: the resolved inputs violate `CHPR.commitOK` (hypothesis of commit_rows_iff_spec)')
+        if not info.get('fuel_ok', True) and len(set(case['nodes'])) == len(case['nodes']):
+            out.append('chp: the resolved inputs violate `CHPR.fuelOK` (hypotheses of the fuel dispatch theorem)')
         for k in ('heat_idx', 'on_idx', 'start_idx'):
             if k in ir['attrs'] and ir['attrs'][k] != info[k]:
                 # the attribute of the object is only meaningful where the variable block exists
